@@ -965,10 +965,10 @@ def pairCol {α : Type} (s : α × α) (i : Int) : α := if i = 0 then s.1 else 
 theorem gen_subdivide_assembly :
     (PW.Gen.ArcLen.splitCoef = 1 ∧ PW.Gen.ArcLen.splitOffset = 1 ∧ PW.Gen.ArcLen.samePolyline = some true ∧
       PW.Gen.ArcLen.assemblySrc =
-        "Polyline(is_closed=self.is_closed, v=np.concatenate(list(itertools.chain(*zip(np.vsplit(self.v, ES + 1), INSERTS + [np.empty((0, 3), dtype=self.POSITION_DTYPE)])))))" ∧
+        "Polyline(is_closed=self.is_closed, v=_vcat(list(itertools.chain(*zip(np.vsplit(self.v, ES + 1), INSERTS + [np.empty((0, 3), dtype=self.POSITION_DTYPE)])))))" ∧
       PW.Gen.ArcLen.countsSrc = "_set(np.zeros(self.num_e, dtype=np.int64), _0[ES], [len(vs) for vs in INSERTS])" ∧
       PW.Gen.ArcLen.indicesSrc =
-        "np.arange(self.num_v) + np.sum(np.tril(np.broadcast_to(np.concatenate([np.zeros(1, dtype=np.int64), COUNTS[:-1] if self.is_closed else COUNTS]), (self.num_v, self.num_v))), axis=1)") ∧
+        "np.arange(self.num_v) + np.sum(np.tril(np.broadcast_to(_vcat([np.zeros(1, dtype=np.int64), COUNTS[:-1] if self.is_closed else COUNTS]), (self.num_v, self.num_v))), axis=1)") ∧
     (PW.Gen.ArcLen.leadingZeros = 1 ∧ PW.Gen.ArcLen.closedDropStop = -1) ∧
     ∀ {K : Type} (closed : Bool) (numV : Nat) (ins : List (List (V3 K))), subdividedIndices closed numV ins =
       (let counts := ins.map List.length
